@@ -443,6 +443,11 @@ _V1_REQUIRED = [
     "ind = 0",
     "while raw_lines[i][ind] == ' ':\n    ind += 1",
     "lines.append({'text': text, 'number': i + 1, 'indentation': ind, 'comment': current_comment})",
+    # the pending line comment (Svc/V1Lines.v: pre_cm): recorded on '#' lines, kept over skipped lines,
+    # attached to the next statement and then cleared
+    "if raw_line.startswith('#'):\n    if current_comment is None:\n        current_comment = raw_line[1:].strip()\n"
+    "    else:\n        current_comment += '\\n' + raw_line[1:].strip()",
+    "current_comment = None",
     # the continuation join (Svc/V1Lines.v: go / join_next)
     "text = raw_line",
     "while i < len(raw_lines) - 1 and text[-1] == '\\\\' or text.endswith(' or'):\n    i += 1\n    if text[-1] == '\\\\':\n"
